@@ -1,4 +1,4 @@
-import MaddyVerif.Lemmas.LimitsStep
+import MaddyVerif.Lemmas.LimitsSeq
 /-!
 C11 — rate/concurrency limits are enforced and every permit is returned.
 
@@ -353,6 +353,96 @@ theorem C11_quiescent_bucket_available (c : Cfg) (evs : List Ev) (h : (run c (St
   have : ¬ (reap c ((run c (St.init c) evs).g.bk sc)).length > c.maxB := by omega
   simp [this]
 
+/-- `n` consecutive executions of a take call by goroutine `j`, each run to completion (a call that would
+park times out instead). -/
+def takeSeq (c : Cfg) (j : Nat) (cl : Call) : Nat → St → St
+  | 0, s => s
+  | n + 1, s => call c j (takeSeq c j cl n s) cl
+
+theorem full_capacity_seq (c : Cfg) (evs : List Ev) (h : (run c (St.init c) evs).misuse = false)
+    (hq : (run c (St.init c) evs).Quiescent) (cl : Call) (L : List Lim) (n : Nat) (hs : CallSpec c cl L)
+    (hcap : ∀ l ∈ L, 0 < l.n → n ≤ l.n.toNat) (hmax : 1 ≤ c.maxB)
+    (hold : ∀ sc, ∀ b ∈ (run c (St.init c) evs).g.bk sc, c.reap < (b.age : Int)) :
+    let s := run c (St.init c) evs
+    let j := s.tasks.length
+    ∃ t, SoloCtx c (takeSeq c j cl n (step c s .spawn)) j cl n t ∧ t.pc = .idle ∧ (0 < n → t.res = .ok) ∧
+      (takeSeq c j cl n (step c s .spawn)).misuse = false := by
+  intro s j
+  have hI := reach_inv c evs h
+  have key : ∀ m, m ≤ n → ∃ t, SoloCtx c (takeSeq c j cl m (step c s .spawn)) j cl m t ∧
+      (takeSeq c j cl m (step c s .spawn)).misuse = false ∧ t.pc = .idle ∧ (0 < m → t.res = .ok) := by
+    intro m
+    induction m with
+    | zero =>
+      intro _
+      have hs0 : step c s .spawn = { s with tasks := s.tasks ++ [Task.new] } := rfl
+      refine ⟨Task.new, ⟨step_inv c s .spawn hI h, ?_, ?_, ?_, ?_, hmax⟩, h, rfl, by simp⟩
+      · intro sc b hb _; exact hold sc b hb
+      · intro i t hi ht
+        simp only [takeSeq, hs0] at ht
+        have hlt : i < s.tasks.length := by
+          have := lt_of_getElem?' _ _ _ ht
+          simp at this
+          omega
+        rw [List.getElem?_append_left hlt] at ht
+        exact hq t (List.mem_of_getElem? ht)
+      · simp [takeSeq, hs0, j]
+      · intro tok; simp [Task.new, msgToks, destToks]
+    | succ m ih =>
+      intro hm
+      obtain ⟨t, hx, hmis, hpc, _⟩ := ih (by omega)
+      obtain ⟨t', hx', hmis', hpc', hres⟩ := solo_call c _ j cl L m t hs hx hmis hpc
+        (fun l hl hp => by have := hcap l hl hp; omega)
+      exact ⟨t', hx', hmis', hpc', fun _ => hres⟩
+  obtain ⟨t, hx, hmis, hpc, hres⟩ := key n (Nat.le_refl n)
+  exact ⟨t, hx, hpc, hres, hmis⟩
+
+/-- **After quiescence the full N can be acquired again** (composed statement, message scopes).  From any
+reachable quiescent state — after any history of successes, rejections, aborts and time-outs, with any number
+of buckets left behind, also more than `MaxBuckets` — a new goroutine can call `TakeMsg` `n` times in a row
+for ANY ip and sender domain (seen before or not) and every one of the `n` calls returns ok, as long as
+`n ≤ N` for every `concurrency N` (N > 0) of the scopes all / ip / source.  Hypotheses: those scopes hold no
+`rate` directive (a rate limit may legitimately refuse), the reap interval has passed for the buckets left
+behind, and `MaxBuckets ≥ 1`.  Afterwards the goroutine's control state accounts for exactly `n` instances of
+the call's permits.  (Every one of the calls returned ok: `takeSeq … m` is a prefix of `takeSeq … n` and the
+theorem applies to every `m ≤ n`.) -/
+theorem C11_full_capacity_sequential (c : Cfg) (evs : List Ev) (h : (run c (St.init c) evs).misuse = false)
+    (hq : (run c (St.init c) evs).Quiescent) (ip dom n : Nat)
+    (hsem : ∀ l ∈ msgLims c, l.kind = .sem)
+    (hcap : ∀ l ∈ msgLims c, 0 < l.n → n ≤ l.n.toNat)
+    (hmax : 1 ≤ c.maxB)
+    (hold : ∀ sc, ∀ b ∈ (run c (St.init c) evs).g.bk sc, c.reap < (b.age : Int)) :
+    let s := run c (St.init c) evs
+    let j := s.tasks.length
+    ∃ t, (takeSeq c j (.takeMsg ip dom) n (step c s .spawn)).tasks[j]? = some t ∧ t.pc = .idle ∧
+      (0 < n → t.res = .ok) ∧
+      (∀ tok, (msgToks c t.outMsg).count tok + (destToks c t.outDest).count tok
+        = n * ((Call.takeMsg ip dom).toks c).count tok) ∧
+      (takeSeq c j (.takeMsg ip dom) n (step c s .spawn)).misuse = false := by
+  intro s j
+  obtain ⟨t, hx, hpc, hres, hmis⟩ :=
+    full_capacity_seq c evs h hq (.takeMsg ip dom) (msgLims c) n (CallSpec.takeMsg c ip dom hsem) hcap hmax hold
+  exact ⟨t, hx.tj, hpc, hres, hx.outs, hmis⟩
+
+/-- The same for the destination scope: `n ≤ N` consecutive `TakeDest(d)` calls all return ok. -/
+theorem C11_full_capacity_sequential_dest (c : Cfg) (evs : List Ev) (h : (run c (St.init c) evs).misuse = false)
+    (hq : (run c (St.init c) evs).Quiescent) (d n : Nat)
+    (hsem : ∀ l ∈ c.dst, l.kind = .sem)
+    (hcap : ∀ l ∈ c.dst, 0 < l.n → n ≤ l.n.toNat)
+    (hmax : 1 ≤ c.maxB)
+    (hold : ∀ sc, ∀ b ∈ (run c (St.init c) evs).g.bk sc, c.reap < (b.age : Int)) :
+    let s := run c (St.init c) evs
+    let j := s.tasks.length
+    ∃ t, (takeSeq c j (.takeDest d) n (step c s .spawn)).tasks[j]? = some t ∧ t.pc = .idle ∧
+      (0 < n → t.res = .ok) ∧
+      (∀ tok, (msgToks c t.outMsg).count tok + (destToks c t.outDest).count tok
+        = n * ((Call.takeDest d).toks c).count tok) ∧
+      (takeSeq c j (.takeDest d) n (step c s .spawn)).misuse = false := by
+  intro s j
+  obtain ⟨t, hx, hpc, hres, hmis⟩ :=
+    full_capacity_seq c evs h hq (.takeDest d) c.dst n (CallSpec.takeDest c d hsem) hcap hmax hold
+  exact ⟨t, hx.tj, hpc, hres, hx.outs, hmis⟩
+
 /-! ## lifecycles: both users of the limits release exactly what they took, on every path -/
 
 def sessOut (s : Sess) : Out := { msg := if s.delivery then [(s.ip, s.mfKey)] else [], dest := [] }
@@ -507,6 +597,24 @@ example : (run exCfg (St.init exCfg) exSched2).misuse = false ∧
     (run exCfg (St.init exCfg) exSched2).tasks.map (·.res) = [.ok, .timeout] ∧
     (run exCfg (St.init exCfg) exSched2).tasks.all (fun t => t.pc == .idle && t.outMsg.isEmpty && t.outDest.isEmpty) = true ∧
     (run exCfg (St.init exCfg) exSched2).g.ip.length = 2 := by decide
+
+/-- Hypotheses of `C11_full_capacity_sequential` on a concrete history: semaphores only, every bucket left
+behind stale, `MaxBuckets = 1` with two buckets in the ip table; the full N = 2 is taken again for a fresh key. -/
+def exCfg2 : Cfg :=
+  { all := [⟨.sem, 2⟩], ip := [⟨.sem, 2⟩], src := [⟨.sem, 3⟩], dst := [⟨.sem, 1⟩], reap := -1, maxB := 1 }
+
+def exSched3 : List Ev :=
+  [.spawn, .spawn, .begin 0 (.takeMsg 1 1)] ++ List.replicate 8 (.go 0) ++
+  [.begin 1 (.takeMsg 2 1)] ++ List.replicate 8 (.go 1) ++
+  [.begin 0 (.relMsg 1 1), .begin 1 (.relMsg 2 1)] ++ List.replicate 5 (.go 0) ++ List.replicate 5 (.go 1) ++ [.adv 1]
+
+example : (run exCfg2 (St.init exCfg2) exSched3).misuse = false ∧
+    (run exCfg2 (St.init exCfg2) exSched3).tasks.all (fun t => t.pc == .idle && t.outMsg.isEmpty && t.outDest.isEmpty) = true ∧
+    (run exCfg2 (St.init exCfg2) exSched3).g.ip.length = 2 ∧
+    (run exCfg2 (St.init exCfg2) exSched3).g.ip.all (fun b => decide (exCfg2.reap < (b.age : Int))) = true ∧
+    (msgLims exCfg2).all (fun l => l.kind == .sem && decide (2 ≤ l.n.toNat)) = true ∧
+    ((takeSeq exCfg2 2 (.takeMsg 9 9) 2 (step exCfg2 (run exCfg2 (St.init exCfg2) exSched3) .spawn)).tasks[2]?.map
+      (fun t => (t.outMsg, t.res))) = some ([(9, 9), (9, 9)], .ok) := by decide
 
 /-- A session (immediate-reject mode) that is refused by the pipeline after taking its limits, then sends a
 MAIL with an upper-case domain (raw key 1001, normalised 1) that is accepted, then is dropped. -/
